@@ -7,9 +7,10 @@ drv_server ops (not verified; exercised on every line):
   srv classify <hex> [<inhex>=<outhex|E>,..]   frames of a byte string
 
 tokens:  c<k>:g:<j> connect, the accepted socket getting the descriptor number client j's closed socket had · m<k> a call
-that arms the service instance's on_disconnect to block · h<k> release that on_disconnect ·
+that arms the service instance's on_disconnect to block · h<k> release that on_disconnect (any server kind) ·
 c<k>:<g|b|s|r> connect (good / bad / no credentials yet / connection reset at once) · k<k>:<g|b> the late
-credentials of a client that connected with s · d<k>:<n> release the object of the n-th lend · · p<k> call · u<k>:<n> a call that passes the n-th kind of by-reference argument, which the service uses through
+credentials of a client that connected with s · w<k> a call asking the service which credentials and peer address its
+connection carries (to the model: a call) · d<k>:<n> release the object of the n-th lend · · p<k> call · u<k>:<n> a call that passes the n-th kind of by-reference argument, which the service uses through
 callbacks (to the model: a call) · x<k>:<n>:<m> a hostile but well-formed request naming a foreign / builtin type and answering
 the server's class inspection with junk (to the model: a handled frame) · l<k> call that lends an object ·
 o<k>:<n> use the object of the n-th lend (0-based, whole case) on connection k · g<k> graceful close ·
@@ -88,6 +89,7 @@ def parseTok (tok : String) : Option Tok :=
   | 'u' :: cs => match splitColon cs with
     | k :: _ => (parseNatChars k).map (fun k => .op (.call k .ping))
     | _ => none
+  | 'w' :: cs => (parseNatChars cs).map (fun k => .op (.call k .ping))
   | 'x' :: cs => match splitColon cs with
     | k :: _ => (parseNatChars k).map (fun k => .op (.raw k [.handled]))
     | _ => none
